@@ -1439,6 +1439,18 @@ class Acceptor:
             self.pos += 1
         if snap is None or op != 'process':
             return
+        # an event type that some state defers (list or Defer row) may legitimately stay pending: not counted
+        if getattr(self, 'deferrable', None) is None:
+            self.deferrable = set()
+            for m in self.ix.order:
+                for st in m['states'].values():
+                    self.deferrable.update(st['deferred'])
+                for row in list(m['table']) + list(m['internal']):
+                    if row['actions'] == 'Defer' and row['ev']:
+                        self.deferrable.add(row['ev'])
+        evlab = r.extra[2].split(':')[0] if len(r.extra) > 2 else ''
+        if evlab in self.deferrable or 'any' in self.deferrable:
+            return
         levels, queues, extras = parse_snap(snap)
         for path, (mq, dq) in queues.items():
             prev = self.weak_prev.get(path, 0)
